@@ -340,7 +340,7 @@ type jscenario struct {
 }
 
 var topicSets = [][]string{{""}, {"t"}, {"", "t"}, {"u"}, {"t", "v"}, {}, {"t", "t"}}
-var pubTopicSets = [][]string{{""}, {"t"}, {"", "t"}, {"v"}, {"t", "t", ""}}
+var pubTopicSets = [][]string{{""}, {"t"}, {"", "t"}, {"v"}, {"t", "t", ""}, {"t", "u", "t"}}
 
 // runScenario runs one seeded scenario; it returns the events, or blocked=true with a goroutine dump.
 func runScenario(seed int64, focus string) (evs []jev, blocked bool, dump string) {
@@ -371,6 +371,9 @@ func runScenario(seed int64, focus string) (evs []jev, blocked bool, dump string
 		repKind = []string{"scripted", "scripted", "finite-manual", "none", "valid-manual"}[rng.Intn(5)]
 	default:
 		repKind = repKinds[rng.Intn(len(repKinds))]
+	}
+	if focus == "mix" && seed%10 == 3 {
+		repKind = "none" // scenarios in which publishers publish one Message object several times (see reuse below)
 	}
 	auto := strings.HasSuffix(repKind, "auto")
 	var rr *recRep
@@ -420,18 +423,52 @@ func runScenario(seed int64, focus string) (evs []jev, blocked bool, dump string
 		t.mu.Unlock()
 		return m
 	}
+	// A publisher's topic lists are the publisher's: it passes the same slices again for later publications, so what a provider
+	// does to a list it was given (sorting it, compacting it in place) would show in what the next publication reaches.  The
+	// lists handed to Publish are this scenario's own copies; the trace records what the publisher meant (the literals).
+	mine := map[string][]string{}
+	owned := func(tp []string) []string {
+		k := strings.Join(tp, "\x1f")
+		if c, ok := mine[k]; ok {
+			return c
+		}
+		c := append([]string(nil), tp...)
+		mine[k] = c
+		return c
+	}
+	var ownMu sync.Mutex
+	intendedOf := map[*string][]string{}
+	intended := func(tp []string) []string {
+		ownMu.Lock()
+		defer ownMu.Unlock()
+		if len(tp) > 0 {
+			if lit, ok := intendedOf[&tp[0]]; ok {
+				return lit
+			}
+		}
+		return append([]string(nil), tp...)
+	}
+	ownTopics := func(lit []string) []string {
+		ownMu.Lock()
+		defer ownMu.Unlock()
+		c := owned(lit)
+		if len(c) > 0 {
+			intendedOf[&c[0]] = append([]string(nil), lit...)
+		}
+		return c
+	}
 	// pubObj publishes an existing Message object again under a new name (the same pointer, unchanged content: its ID is wantID)
 	pubObj := func(m *sse.Message, name string, tp []string, after, wantID string) {
 		t.mu.Lock()
 		t.msgs[m] = name
 		t.mu.Unlock()
-		t.log(jev{"e": "call.pub", "p": name, "t": tp, "after": after, "wantid": wantID})
+		t.log(jev{"e": "call.pub", "p": name, "t": intended(tp), "after": after, "wantid": wantID})
 		err := j.Publish(m, tp)
 		t.log(jev{"e": "ret.pub", "p": name, "v": jerrClass(err)})
 	}
 	pub := func(name string, tp []string, after string) {
 		m := mk(name)
-		t.log(jev{"e": "call.pub", "p": name, "t": tp, "after": after})
+		t.log(jev{"e": "call.pub", "p": name, "t": intended(tp), "after": after})
 		err := j.Publish(m, tp)
 		t.log(jev{"e": "ret.pub", "p": name, "v": jerrClass(err)})
 	}
@@ -474,7 +511,7 @@ func runScenario(seed int64, focus string) (evs []jev, blocked bool, dump string
 			prev = hist[i-1]
 		}
 		hist = append(hist, name)
-		tp := pubTopicSets[rng.Intn(3)]
+		tp := ownTopics(pubTopicSets[rng.Intn(3)])
 		if many {
 			tp = manyTopics(i*40, i*40+40-i*10) // m0..m39, then m40..m69
 		}
@@ -553,13 +590,13 @@ func runScenario(seed int64, focus string) (evs []jev, blocked bool, dump string
 		}
 	}
 	npub := 1 + rng.Intn(3)
-	reuse := repKind == "none" && seed%3 == 0 // publishers that publish one Message object several times
+	reuse := repKind == "none" && (seed%3 == 0 || seed%10 == 3) // publishers that publish one Message object several times
 	for p := 0; p < npub; p++ {
 		p := p
 		nk := 1 + rng.Intn(3)
 		sets := make([][]string, nk)
 		for k := range sets {
-			sets[k] = pubTopicSets[rng.Intn(len(pubTopicSets))]
+			sets[k] = ownTopics(pubTopicSets[rng.Intn(len(pubTopicSets))])
 			if many {
 				sets[k] = [][]string{{"m64"}, {"m65"}, {"m1", "m64"}}[rng.Intn(3)]
 			}
